@@ -194,6 +194,7 @@ class Engine:
                 try:
                     result = fn()
                 except _PathAbort:
+                    self.stats['aborted'] = self.stats.get('aborted', 0) + 1
                     continue
                 except Inconclusive:
                     raise
